@@ -156,6 +156,8 @@ class ModuleInfo:
         self.source = source
         self.sha256 = hashlib.sha256(source.encode()).hexdigest()
         self.tree = ast.parse(source, filename=path)
+        from .desugar import desugar
+        self.tree = desugar(self.tree)
         self.functions = {}
         self.classes = {}
         self.imports = {}  # local name -> dotted target ("numpy", "formulae.expr.Assign")
